@@ -123,7 +123,8 @@ Inductive pcase :=
 | PConv (s : str) (valid : bool) (r : option (list (option Z)))
 | PPrint (kind : Z) (x y z t : Z) (s : str) (r : option (list (option Z)))
 | PIncr (v step : Z) (r : option Z)
-| PAny (x : anyarg) (len : Z) (idx : nat) (valid : bool) (r : option Z).
+| PAny (x : anyarg) (len : Z) (idx : nat) (valid : bool) (r : option Z)
+| PSpace (l : list Z).      (* the code points below 65536 that CPython's str.strip() removes: validates the stand-in [is_space] *)
 (* 1: the implementation's own answers break the bijection / the print-parse round trip / the from-the-end rule
    2: the implementation differs from the model on the property's domain   9: differs outside the domain (fidelity note) *)
 Definition chk (c : pcase) : nat :=
@@ -150,12 +151,13 @@ Definition chk (c : pcase) : nat :=
       else if (0 <=? v) && negb (oz_eqb r (Some v)) then 1
       else if oz_eqb r (increment v step) then 0 else 2
   | PAny x len idx valid r => if oz_eqb r (translate_from_any x len idx) then 0 else if valid then 2 else 9
+  | PSpace l => if str_eqb (filter is_space (zrange 0 65535)) l then 0 else 2
   end.
 '''
 
 
 def gen_pure(tier, rng):
-    specs = []
+    specs = [dict(k="space")]
     for n in range(0, 20001):
         specs.append(dict(k="col", n=n))
     edge = [26 ** k + d for k in range(1, 9) for d in (-2, -1, 0, 1)] + \
@@ -219,6 +221,9 @@ def gen_pure(tier, rng):
 
 def run_pure(spec, U):
     k = spec["k"]
+    if k == "space":
+        assert not any(("A" + chr(c)).strip() == "A" for c in range(65536, 0x110000))
+        return "PSpace [%s]" % ";".join(str(c) for c in range(65536) if ("A" + chr(c)).strip() == "A")
     if k == "col":
         n = spec["n"]
         a = guarded(U.digit_to_alpha, n)
@@ -1405,7 +1410,7 @@ def _finish(proofs, coverage, violations, known_seen, t0, tier, seed):
 
 def nontrivial(g, sp):
     if g == "A":
-        return sp["k"] != "col" or sp["n"] >= 26
+        return sp["k"] != "col" or sp.get("n", 0) >= 26
     if g in ("B", "C"):
         return bool(sp["table"]["rows"])
     n = sp.get("n", sp.get("old", "") + sp.get("new", ""))
